@@ -170,6 +170,9 @@ def _fill(rng, qlists, kind, qright):
                 T[..., r] = T[..., same[0]]
     elif kind == 'zero':
         T = np.zeros(S.shape)
+    elif kind in ('tiny', 'large'):
+        # exact power-of-two scaling of the generic entries: every tensor of size 2^-20 resp. 2^20
+        T = generic(rng, S.shape, 'complex') * 2.0 ** (-20 if kind == 'tiny' else 20)
     elif kind == 'fortran':
         # complex entries stored column-major (operations that reshape in place or hand views to LAPACK see a different layout)
         T = generic(rng, S.shape, 'complex')
